@@ -990,6 +990,10 @@ def gen_sizes():
         f = method(sl, cls, 'forward')
         strs(tag + '_self_writes', sorted(set(ast.unparse(t) for st in ast.walk(f) if isinstance(st, (ast.Assign, ast.AugAssign))
                                               for t in (st.targets if isinstance(st, ast.Assign) else [st.target]) if ast.unparse(t).startswith('self.'))))
+    for cls, tag, fns in (('ScatLayer', 'scat1', ('ScatLayerj1_f', 'ScatLayerj1_rot_f')), ('ScatLayerj2', 'scatj2', ('ScatLayerj2_f', 'ScatLayerj2_rot_f'))):
+        f = method(sl, cls, 'forward')
+        for fn_ in fns:
+            strs('%s_args_%s' % (tag, 'rot' if 'rot' in fn_ else 'plain'), [ast.unparse(a) for a in the_call(f, fn_ + '.apply').args])
     for cls, tag in (('DWT1DForward', 'dwtfwd1'), ('DWT1DInverse', 'dwtinv1')):
         f = method(t1d, cls, 'forward')
         strs(tag + '_self_writes', sorted(set(ast.unparse(t) for st in ast.walk(f) if isinstance(st, (ast.Assign, ast.AugAssign))
@@ -998,7 +1002,7 @@ def gen_sizes():
     return _write(os.path.join(GEN, 'Sizes.lean'), '\n'.join(out))
 
 
-SIZE_PROPS = {'C01', 'C10', 'C08', 'C03', 'C19', 'C13', 'C04', 'C11', 'C14', 'C17', 'C02', 'C07', 'C05', 'C12', 'C06', 'C15'}     # the properties whose theorem lists include the size-arithmetic tie (C01Z)
+SIZE_PROPS = {'C01', 'C10', 'C08', 'C03', 'C19', 'C13', 'C04', 'C11', 'C14', 'C17', 'C02', 'C07', 'C05', 'C12', 'C06', 'C15', 'C09'}     # the properties whose theorem lists include the size-arithmetic tie (C01Z)
 
 PAD_PROPS = {'C01', 'C03', 'C04', 'C11'}      # the properties whose theorem lists include the padding-helper tie (C03T)
 
